@@ -82,6 +82,8 @@ var c09AugAlphabet = []c09Op{
 	{"in-container/plain-case", `{"w":{"p1":"a"}}`, ""},
 	{"in-container/augmented-case/leaf", `{"w":{"q1":"a"}}`, ""},
 	{"in-container/augmented-case/list", `{"w":{"ql":[{"k":"a"}]}}`, ""},
+	{"nested/case-holding-only-a-choice", `{"w":{"t1":"a"}}`, ""},
+	{"nested/case-holding-only-a-choice", `{"w":{"t2":"b"}}`, ""},
 	{"outside", `{"w":{"keep":"a"}}`, ""},
 }
 
